@@ -44,6 +44,10 @@ CHECKS = {
  "C07": ("exploration", "reference-model monitor over signalling events of real PeerConnections (offers' msid media sections, close/abort) at logical quiescence points",
    "Real server in a child process; clients with real pion PeerConnections publish audio / video / audio+video / audio+two-video streams (first packets sent track by track) and subscribe with random request maps, per-stream requests, aborts, replacements, leaves, disconnects, kicks and unpresent; after every step each (subscriber, stream) pair is compared with the model of the property text; every offer's source/username/label is checked, closes must be justified and must reach everyone. Held on the executions observed.",
    "rid-based simulcast publishers are not generated; per-stream requests and aborts are modelled as lasting until the next push (documented in the evidence assumptions).", "5/C07"),
+
+ "C17": ("exploration", "request-matrix monitor: status / byte-level snapshots / sentinel and marker scanning of every response, plus a preservation model over authorised update sequences",
+   "7 methods x 42 endpoint shapes x 39 credential kinds per target group against the real server in a child process: insufficient credentials must get 401 (404 where the path does not exist) with the groups directory and token file byte-identical and no planted marker in the response; no response ever contains a planted secret sentinel; random sequences of authorised updates are compared item by item with a model of what each request addresses. Held on the requests issued.",
+   "Secrets and group data are recognised by planted unique strings; a few shapes are counted but not judged (listed in the evidence assumptions).", "5/C17"),
 }
 
 NOT_YET = "check not built yet in this session (work in progress, see DESIGN.md section 9)"
